@@ -263,7 +263,7 @@ def c06_text(job):
         return job["text"]
     text = gen_inputs.read_text(job["path"])
     v = job.get("variant", "orig")
-    rng = random.Random("var/%s/%s/%s" % (job["path"], v, job.get("vseed")))
+    rng = random.Random("var/%s/%s/%s" % (common.rel(job["path"]), v, job.get("vseed")))
     if v == "orig":
         return text
     if v == "usecomments":
@@ -461,7 +461,7 @@ def c06_job_inner(job, box=None):
     cla, oc, style, dicts = c06_config(job)
     text = c06_text(job)
     lines = vsgrun.text_to_lines(text)
-    rng = random.Random("c06/%s/%s/%s/%s/%d" % (job.get("path"), job.get("variant"), job.get("vseed"), job["config"], common.seed()))
+    rng = random.Random("c06/%s/%s/%s/%s/%d" % (common.rel(job.get("path")), job.get("variant"), job.get("vseed"), job["config"], common.seed()))
 
     def describe(**kw):
         d = {k: job[k] for k in ("path", "variant", "vseed", "config", "cseed") if k in job}
